@@ -106,6 +106,17 @@ Definition conf_numeric_unit (ds : list N) (sp : N) (w : list N) : bool :=
 
 Definition no_double_dot (line : list N) : bool := negb (contains [46; 46] line).
 
+(* section-dependent side conditions.  ~Curves: no ".." in the line.  Outside ~Parameter the
+   description has no colon (the LAST colon separates).  In ~Parameter every colon of the
+   value is a clock colon and either the separating colon is set off by a blank on both
+   sides (then the description may contain colons) or unit and description are colon-free. *)
+Definition sect_ok (is_curves is_param : bool) (line u v p3 p4 d : list N) : bool :=
+  (negb is_curves || no_double_dot line) &&
+  (if is_param
+   then clock_colons v && ((negb (is_nil p3) && negb (is_nil p4))
+                           || (negb (in_str 58 u) && negb (in_str 58 d)))
+   else negb (in_str 58 d)).
+
 Definition hline_eqb (a b : hline) : bool :=
   str_eqb (h_name a) (h_name b) && str_eqb (h_unit a) (h_unit b)
   && str_eqb (h_value a) (h_value b) && str_eqb (h_descr a) (h_descr b).
